@@ -31,3 +31,13 @@ package core
 //@   ensures result <==> (exists i int :: 0 <= i && i < len(akeys) && akeys[i] == pk)
 //@   loop 1
 //@     invariant forall i int :: 0 <= i && i <= rangeindex ==> akeys[i] != pk
+
+// parseURL wraps net/url.Parse: on success the URL object exists.
+//@ func url.Parse(rawURL string) (u *url.URL, err error)
+//@   assume standard library (net/url)
+//@   pure
+//@   ensures err == nil ==> u != nil
+//@ func parseURL(address string) (u *url.URL, err error)
+//@   property C11
+//@   pure
+//@   ensures err == nil ==> u != nil
